@@ -163,6 +163,7 @@ package ovsdb
 // ---- mutation validation (C19/C03): a zero divisor never reaches the arithmetic ----
 //@ func (*ColumnSchema).Mutable
 //@ pure
+//@ ensures result == (c.mutable == nil || *c.mutable)
 //@ func validateMutationAtomic
 //@ modifies nothing
 //@ may_panic
